@@ -140,6 +140,11 @@ func (d *intDecoder) decodeStreamByte(s *Stream) ([]byte, error) {
 			for {
 				s.cursor++
 				if numTable[s.char()] {
+					if s.cursor == start+1 && s.char() == '0' {
+						// the integer part "-0" ends here: digits behind it are not part of this number
+						s.cursor++
+						break
+					}
 					continue
 				} else if s.char() == nul {
 					if s.read() {
@@ -219,8 +224,13 @@ func (d *intDecoder) decodeByte(buf []byte, cursor int64) ([]byte, int64, error)
 		case '-', '1', '2', '3', '4', '5', '6', '7', '8', '9':
 			start := cursor
 			cursor++
-			for numTable[char(b, cursor)] {
+			if char(b, start) == '-' && char(b, cursor) == '0' {
+				// the integer part "-0" ends here: digits behind it are not part of this number
 				cursor++
+			} else {
+				for numTable[char(b, cursor)] {
+					cursor++
+				}
 			}
 			if cursor-start == 1 && char(b, start) == '-' {
 				// a minus sign without digits
